@@ -26,18 +26,30 @@ Section Oracles.
   Notation find_cwd := (find_cwd o_resolve o_getcwd).
   Notation load_stage := (@load_stage S G o_load_config o_configure_logging).
 
-  (* C19_output, FULL statement:
-       post_event inp -> stdout is [] or one duck-prefixed line, exit 0, never a decision.
-     FALSE of the code as it is: see C19_output_refuted below (a ConfigError is answered with a
-     PreToolUse `ask` envelope before the event is looked at).  What holds: whenever load_config /
-     configure_logging do not raise ConfigError, a PostToolUse run prints nothing, or one line made of
-     the duck and a non-empty message, or {} - never a decision - and exits 0. *)
-  Theorem C19_output_partial : forall setup e inp,
+  (* C19_output: a PostToolUse run prints nothing, or one line made of the duck and a non-empty message,
+     or {} - never a decision - and exits 0; for every input, mode, configuration outcome (ConfigError
+     included) and oracle behaviour. *)
+  Theorem C19_output : forall setup e inp,
     X -> (setup = Ok tt \/ setup = Raise OSError) -> post_event inp ->
-    (forall msg, ~ config_error_at S G o_resolve o_getcwd o_load_config o_configure_logging inp msg) ->
     post_stdout (stdout (main setup e (Ok inp))) /\ exit_code (main setup e (Ok inp)) = 0%nat.
   Proof. exact (main_post_output S G o_resolve o_getcwd o_load_config o_configure_logging o_log_decision
                                  o_analyze o_gmatch o_words o_after_prep o_after_rule o_print). Qed.
+
+  (* {} (rather than nothing) is printed only when something raised or the tool is neither a shell tool
+     nor an MCP tool: if main_try returns [{}], the route is "other" *)
+  Theorem C19_output_empty_object : forall explicit inp m,
+    (match explicit with Some m => Ok m | None => detect_mode_from_input inp end) = Ok m ->
+    post_event inp -> main_try explicit inp = Ok [J (JObj [])] -> route_of (is_cursor m) inp = Ok ROther.
+  Proof. exact (main_post_empty_origin S G o_resolve o_getcwd o_load_config o_configure_logging o_log_decision
+                                       o_analyze o_gmatch o_words o_after_prep o_after_rule o_print). Qed.
+
+  (* a ConfigError on PostToolUse: nothing is printed *)
+  Theorem C19_output_config_error : forall explicit inp m msg,
+    (match explicit with Some m => Ok m | None => detect_mode_from_input inp end) = Ok m ->
+    config_error_at S G o_resolve o_getcwd o_load_config o_configure_logging inp msg -> post_event inp ->
+    main_try explicit inp = Ok [].
+  Proof. exact (main_try_config_error_post S G o_resolve o_getcwd o_load_config o_configure_logging o_log_decision
+                                           o_analyze o_gmatch o_words o_after_prep o_after_rule o_print). Qed.
 
   (* C19_last, MCP tools: what is printed is the message of the LAST after-mcp rule whose pattern matches;
      nothing when none matches, when that rule has no message, or when its message is empty *)
@@ -70,7 +82,9 @@ Section Oracles.
   Proof. exact (fun lc' => main_inert S G o_resolve o_getcwd o_configure_logging o_log_decision o_print
                                       o_load_config lc' o_analyze o_gmatch o_words o_after_prep o_after_rule). Qed.
 End Oracles.
-Print Assumptions C19_output_partial.
+Print Assumptions C19_output.
+Print Assumptions C19_output_empty_object.
+Print Assumptions C19_output_config_error.
 Print Assumptions C19_last_mcp.
 Print Assumptions C19_last_shell.
 Print Assumptions C19_inert.
@@ -81,7 +95,9 @@ Theorem C19_last_such : forall (A : Type) (p : A -> bool) (a : A) (l : list A),
 Proof. exact @last_such_cons. Qed.
 Print Assumptions C19_last_such.
 
-(* the refutation of the full C19_output: PostToolUse + unreadable config => a permission decision *)
+(* History: before /repo commit 007d10b the ConfigError handler ran before the event was looked at and a
+   PostToolUse run with an unreadable configuration printed a PreToolUse `ask` envelope (the former
+   C19_output_refuted).  The same witness now prints nothing: *)
 Definition demo_main (lc : str -> res (config unit unit)) :=
   @main unit unit (fun s => Ok s) (Ok $"/w") lc (fun _ => Ok tt) (fun _ _ => Ok tt)
         (fun _ _ _ => Ok ($"allow", $"ls")) (fun _ p => str_eqb p $"mcp__*") (fun _ => [$"ls"])
@@ -90,14 +106,9 @@ Definition demo_main (lc : str -> res (config unit unit)) :=
 Definition post_ls : json :=
   tool_input_shape $"Bash" (JStr $"ls") (JStr $"/w") [($"hook_event_name", JStr $"PostToolUse")].
 
-Theorem C19_output_refuted :
-  exists lc inp, post_event inp /\
-    stdout (demo_main lc (Ok inp)) = [J (envelope Claude Ask $"config error: unreadable")].
-Proof.
-  exact (ex_intro _ (fun _ => Raise (ConfigError $"unreadable"))
-          (ex_intro _ post_ls (conj (ex_intro _ (JStr $"PostToolUse") (conj eq_refl eq_refl)) eq_refl))).
-Qed.
-Print Assumptions C19_output_refuted.
+Example C19_formerly_refuted_witness :
+  stdout (demo_main (fun _ => Raise (ConfigError $"unreadable")) (Ok post_ls)) = [].
+Proof. vm_compute. reflexivity. Qed.
 
 (* non-vacuity: three after rules, the last matching one is printed; an empty last message silences *)
 Definition mk (p : string) (m : option string) : rule :=
